@@ -237,6 +237,7 @@ func Load(cfg LoadCfg) (*Ctx, error) {
 		}
 	}
 	notes = append(notes, detectFieldRenames(c)...)
+	notes = append(notes, computeLitAliases(c)...)
 	c.InlineNotes = uniq(notes)
 	if seq > 0 {
 		dropUnreferencedNewFuncs(c, known)
